@@ -35,7 +35,7 @@ func init() {
 			"the harness modifier vcat with literal, variable and key-value arguments, on every scalar kind incl. missing, nil, zero, false, empty; Go output vs Lean model (modifier loop = left fold) on the dumped real tree; " +
 			"non-trivial = non-empty output; distinct by request"
 		letters := "hajqJulc"
-		inputs := []string{"a<b>&\"c'", "x y/z?q=1&r=2", "it's \"q\"\n\t\\", "é日本 ", "plain", "", "<", "&amp;", "%41+", "\x01\x1f\x7f"}
+		inputs := []string{"hello wide world", "a<b>&\"c'", "x y/z?q=1&r=2", "it's \"q\"\n\t\\", "é日本 ", "plain", "", "<", "&amp;", "%41+", "\x01\x1f\x7f"}
 		var cases []*RCase
 		var dirs []string
 		var rec func(prefix string, n int)
